@@ -393,6 +393,7 @@ func (e *Engine) VerifyFunc(c *Contract) (res *FuncResult) {
 	envP.wmPre = entry.wm
 	rt := resultType(fn.Signature)
 	envP.setResults(rt, tupleVal(rt, vals...))
+	envP.nameResults(fn.Signature)
 	if len(vals) == 1 {
 		r := envP.vars["result"]
 		r.Loc = vals[0].Loc
